@@ -20,6 +20,9 @@ mod async_impl;
 mod core;
 mod mailbox;
 mod sync_impl;
+/// Verification seam H11 (see the module docs).
+#[cfg(all(excsn_fibre_verif, not(loom)))]
+mod verif_map;
 
 use parking_lot::Mutex;
 use std::collections::HashSet;
